@@ -245,6 +245,21 @@ def check_property(pid, tier, seed, write_evidence=True):
         if not P.get("harness") and not P.get("bounded"):
             exit_code = 2
 
+    lemma_check = None
+    if tier == "thorough" and any(g in ("scheduler", "digraph", "graphbuild", "subdag") for g in P["groups"]):
+        # L1 / L2 (used as axiom instances by the scheduler, selection and description-branch proofs) are re-checked by Lean
+        import shutil
+        import subprocess
+
+        tl = time.time()
+        if shutil.which("lean"):
+            r = subprocess.run(["lean", os.path.join(HERE, "lemmas", "graph_lemmas.lean")], capture_output=True, text=True, timeout=1200)
+            lemma_check = dict(tool="lean 4 + Mathlib", file="lemmas/graph_lemmas.lean", ok=(r.returncode == 0), seconds=round(time.time() - tl, 1), output=(r.stdout + r.stderr)[-400:])
+            if r.returncode != 0:
+                print(f"CHECKER-ERROR property={pid}: the Lean re-check of lemmas/graph_lemmas.lean failed")
+                return 3
+        else:
+            lemma_check = dict(tool="lean", ok=None, note="lean is not on PATH: lemmas L1 / L2 not re-checked in this run")
     wall = time.time() - t0
     n_dec = len(deciding) - sum(len(v) for v in kf_hits.values())
     proof_ok = not refuted and not undecided and not errors and n_dec > 0 and len(discharged) == n_dec
@@ -277,6 +292,7 @@ def check_property(pid, tier, seed, write_evidence=True):
             bounded_standins=standins + [dict({k: v for k, v in er.items() if k != "violations"}, violations=len(er["violations"])) for er in extra],
             samples=samples + bsamples[:3],
             claim=claim,
+            lemmas=lemma_check,
             explanation=P.get("explanation", "") + " " + ("all deciding obligations discharged" if proof_ok else "not every deciding obligation is discharged (see undischarged / function_errors); bounded stand-in results are listed separately and are not proof"),
             evaluations=max(1, n_dec + sum(s.get("runs", 0) for s in standins) + sum(er["runs"] for er in extra)), distinct_nontrivial=max(2, len({x["name"] for x in deciding})),
             rule="one evaluation = one clause-level proof obligation (path condition => clause) generated from the current source, or one controlled run of the real scheduler in the stand-in; distinct = distinct obligation names",
